@@ -200,17 +200,21 @@ Hypotheses: `havg` - in every group the values an AVG averages are equal (`avgGr
 decidable test; true of every query without AVG: `C07_avgGroupsConstant_of_noAvg`; the known
 finding); `hws` - every stored row has one value per column (`WellShaped`; on a short row the
 reference meaning counts the missing value as NULL while the executor panics:
-`C07_short_row_panics`); `hstar`, `hgroups` as above. -/
+`C07_short_row_panics`); `hlist`, `hlim` - the select list is not empty, no written LIMIT / OFFSET is
+negative (every parsed statement; `C05_meaningful_query_is_answered`); `hgroups` as above.  (No hypothesis on `*`: a select list that starts with `*`
+has no reference meaning in a query with an aggregate or a GROUP BY,
+`C07_star_with_group_by_is_refused`.) -/
 theorem C07_meaningful_query_is_answered {fetch : Bytes → Option Table} {q : Select}
     {t : TableName} {want : List Row} {keys : List (Nat × Bool)}
-    (hfrom : q.from_ = some (.table t)) (hstar : isStar q.list = false) (hgroups : groups q = true)
+    (hfrom : q.from_ = some (.table t)) (hgroups : groups q = true)
+    (hlist : q.list ≠ []) (hlim : Spec.boundsOK q.lim = true)
     (havg : avgGroupsConstant fetch q = true) (hws : WellShaped fetch)
     (hm : Spec.meaning fetch q = some want)
     (hk : Spec.sortKeys q (judgeHeader fetch q) = some keys)
     (hcomp : ∀ a ∈ want, ∀ b ∈ want, KeyComparable keys a b) :
     evaluateSelect fetch q = .ok (cut q.lim (sortRows keys want), judgeHeader fetch q) ∧
       Spec.satisfies q (judgeHeader fetch q) want (cut q.lim (sortRows keys want)) = true :=
-  ⟨agg_single_answered hfrom hstar hgroups (avgConst_of_avgGroupsConstant hfrom havg) hws hm hk hcomp,
+  ⟨agg_single_answered hfrom hgroups hlist hlim (avgConst_of_avgGroupsConstant hfrom havg) hws hm hk hcomp,
    satisfies_perm (comparedExactly_groups hgroups) hk (List.Perm.refl _) hcomp⟩
 
 /-- a select list without AVG passes the test `avgGroupsConstant` on any tables -/
@@ -275,7 +279,7 @@ def exZeroQuery : Select :=
 -- non-vacuity of `C07_result_is_the_reference_meaning` and `C07_meaningful_query_is_answered`
 example : exAggQuery.from_ = some (.table ⟨[116], none⟩) ∧ isStar exAggQuery.list = false ∧
     groups exAggQuery = true ∧ groupedQuery exAggQuery = true ∧ whereIsBoolean exAggQuery = true ∧
-    noAvg exAggQuery.list = true := by decide
+    noAvg exAggQuery.list = true ∧ exAggQuery.list ≠ [] ∧ Spec.boundsOK exAggQuery.lim = true := by decide
 example : evaluateSelect exAggFetch exAggQuery =
     .ok ([[.int 2, .int 2, .int 1], [.int 1, .int 3, .int 2]],
       [⟨[116], [107]⟩, ⟨[], "count(*)".toUTF8.toList⟩, ⟨[], "count(w)".toUTF8.toList⟩]) := by
@@ -328,13 +332,25 @@ example : evaluateSelect exAggFetch exAvgQuery =
 def exStarGroup : Select :=
   { list := [⟨.star, []⟩], from_ := some (.table ⟨[116], none⟩), groupBy := [⟨[], [107]⟩] }
 
-/-- **C07.star_with_group_by_is_refused** (why the theorems have `hstar`): for a select list that
-starts with `*` the reference meaning is the source rows whatever the GROUP BY, the executor refuses
-(`*` is no column a GROUP BY reference could designate).  The parser does not produce such a
-statement (`validateGroupBy`), the judge therefore never sees one. -/
+/-- **C07.star_with_group_by_is_refused**: `SELECT * FROM t GROUP BY k` - a statement the parser
+accepts (`validateGroupBy` looks at the column references of the select list only and `*` is none) -
+is refused by the executor, as by the Go code (`ErrGroupByNotSelected`: `*` is no column a GROUP BY
+reference could designate), and has no reference meaning: a grouping query has one row per group and
+`*` names no column of it.  So the refusal is no violation for the judge, and the "meaningful query
+is answered" theorems need no hypothesis on `*`; the "result is the reference meaning" theorems keep
+`hstar` (the executor answers the hand-built list `*, count(*)` - no parser output - on a one-row
+table, with that row). -/
 theorem C07_star_with_group_by_is_refused :
     evaluateSelect exAggFetch exStarGroup = .err .groupByNotSelected ∧
-    (Spec.meaning exAggFetch exStarGroup).isSome = true ∧ groups exStarGroup = true := by decide
+    Spec.meaning exAggFetch exStarGroup = none ∧ groups exStarGroup = true := by decide
+
+/-- **C07.star_has_no_meaning_in_a_grouping_query**: in general - a query with an aggregate in the
+select list or a GROUP BY whose select list starts with `*` has no reference meaning, on any tables. -/
+theorem C07_star_has_no_meaning_in_a_grouping_query (fetch : Bytes → Option Table) (q : Select)
+    (hstar : isStar q.list = true) (hgroups : groups q = true) : Spec.meaning fetch q = none := by
+  cases hm : Spec.meaning fetch q with
+  | none => rfl
+  | some want => rw [meaning_groups_nostar hgroups hm] at hstar; cases hstar
 
 /-- `SELECT v < 'x', count(*) FROM s` -/
 def exExprAgg : Select :=
@@ -423,12 +439,13 @@ theorem C07_join_result_is_the_reference_meaning {fetch : Bytes → Option Table
 over any FROM clause that has a reference meaning `want`, whose ORDER BY keys resolve against the
 judge's header and are comparable on `want`, is not refused: the executor answers with that header
 and `cut (sortRows keys got)` for a permutation `got` of `want`, and the judge's test accepts the
-answer.  Hypotheses `havg`, `hws`, `hstar`, `hgroups` as in `C07_meaningful_query_is_answered`; none
+answer.  Hypotheses `havg`, `hws`, `hlist`, `hlim`, `hgroups` as in `C07_meaningful_query_is_answered`; none
 on the shape of the select list (a reference meaning exists only for a query whose non-aggregate
 elements are constant on each group, and such an element does not depend on the order of the rows). -/
 theorem C07_join_meaningful_query_is_answered {fetch : Bytes → Option Table} {q : Select}
     {tr : TableRef} {want : List Row} {keys : List (Nat × Bool)}
-    (hfrom : q.from_ = some tr) (hstar : isStar q.list = false) (hgroups : groups q = true)
+    (hfrom : q.from_ = some tr) (hgroups : groups q = true)
+    (hlist : q.list ≠ []) (hlim : Spec.boundsOK q.lim = true)
     (havg : avgGroupsConstant fetch q = true) (hws : WellShaped fetch)
     (hm : Spec.meaning fetch q = some want)
     (hk : Spec.sortKeys q (judgeHeader fetch q) = some keys)
@@ -436,7 +453,7 @@ theorem C07_join_meaningful_query_is_answered {fetch : Bytes → Option Table} {
     ∃ got, got.Perm want ∧
       evaluateSelect fetch q = .ok (cut q.lim (sortRows keys got), judgeHeader fetch q) ∧
       Spec.satisfies q (judgeHeader fetch q) want (cut q.lim (sortRows keys got)) = true := by
-  obtain ⟨got, hp, he⟩ := agg_any_answered hfrom hstar hgroups
+  obtain ⟨got, hp, he⟩ := agg_any_answered hfrom hgroups hlist hlim
     (avgConst_of_avgGroupsConstant hfrom havg) hws hm hk hcomp
   exact ⟨got, hp, he, satisfies_perm (comparedExactly_groups hgroups) hk hp hcomp⟩
 
@@ -468,7 +485,8 @@ def exJoinAgg : Select :=
 -- non-vacuity of the two theorems: three groups, the unmatched right row counts 1 and 0
 example : exJoinAgg.from_ = some exJoinRU ∧ isStar exJoinAgg.list = false ∧ groups exJoinAgg = true ∧
     groupedQuery exJoinAgg = true ∧ nonCountsConstantOnGroups Example.fetchX exJoinAgg = true ∧
-    whereIsBoolean exJoinAgg = true ∧ avgGroupsConstant Example.fetchX exJoinAgg = true := by
+    whereIsBoolean exJoinAgg = true ∧ avgGroupsConstant Example.fetchX exJoinAgg = true ∧
+    exJoinAgg.list ≠ [] ∧ Spec.boundsOK exJoinAgg.lim = true := by
   decide +kernel
 example : evaluateSelect Example.fetchX exJoinAgg =
     .ok ([[.str [122], .int 1, .int 0], [.str [113], .int 2, .int 2], [.str [112], .int 2, .int 2]],
